@@ -1074,8 +1074,20 @@ func rulesC13(w *World, o *Out) {
 						continue
 					}
 					nBts++
-					arch := FindCalls(f, true, isCallee(skw, "Keeper", "SetPastEthSignatureCheckpoint"))
-					o.Check("C13.R1", w.FuncKey(f)+"|a checkpoint put into BytesToSign is archived", len(arch) > 0, w.Pos(st.Pos()), "the bytes a validator is given to sign must be in the archive of legitimate checkpoints, otherwise its confirmation can be replayed as bad-signature evidence")
+					// (a helper introduced later is judged by the functions that call it)
+					tops := []*ssa.Function{f}
+					if isNewHelper(f) {
+						if rc := rootCallers(f); len(rc) > 0 {
+							tops = rc
+						}
+					}
+					okArch := true
+					for _, tf := range tops {
+						if len(FindCalls(tf, true, isCallee(skw, "Keeper", "SetPastEthSignatureCheckpoint"))) == 0 {
+							okArch = false
+						}
+					}
+					o.Check("C13.R1", w.FuncKey(tops[0])+"|a checkpoint put into BytesToSign is archived", okArch, w.Pos(st.Pos()), "the bytes a validator is given to sign must be in the archive of legitimate checkpoints, otherwise its confirmation can be replayed as bad-signature evidence")
 				}
 			}
 		}
